@@ -46,7 +46,7 @@ def NoGlue (t : Tok) : List Char → Prop
 /-- tokens the printer can emit and the scanner reads back -/
 def TokWF : Tok → Prop
   | .id s => (∃ c r, s.toList = c :: r ∧ c.isAlpha = true) ∧ s.toList.all idChar = true ∧ classify s.toList = some (.id s)
-  | .kw s => s ∈ ["TRUE", "FALSE", "UNKNOWN", "PI", "SELF", "QUERY", "?"]
+  | .kw s => s ∈ ["TRUE", "FALSE", "UNKNOWN", "PI", "CONST_E", "SELF", "QUERY", "?"]
   | .real _ => False
   | .str b => ∃ s, b = escQ s
   | .estr s => s.toList.all (· ≠ '"') = true
@@ -257,11 +257,12 @@ theorem reads_op (o : BinOp) : ReadsTok (.op o) := by
 
 theorem reads_kw (s : String) (h : TokWF (.kw s)) : ReadsTok (.kw s) := by
   simp only [TokWF, List.mem_cons, List.mem_nil_iff, or_false] at h
-  rcases h with rfl | rfl | rfl | rfl | rfl | rfl | rfl
+  rcases h with rfl | rfl | rfl | rfl | rfl | rfl | rfl | rfl
   · word_reads "TRUE".toList, 'T', ['R', 'U', 'E']
   · word_reads "FALSE".toList, 'F', ['A', 'L', 'S', 'E']
   · word_reads "UNKNOWN".toList, 'U', ['N', 'K', 'N', 'O', 'W', 'N']
   · word_reads "PI".toList, 'P', ['I']
+  · word_reads "CONST_E".toList, 'C', ['O', 'N', 'S', 'T', '_', 'E']
   · word_reads "SELF".toList, 'S', ['E', 'L', 'F']
   · word_reads "QUERY".toList, 'Q', ['U', 'E', 'R', 'Y']
   · intro rest hg
@@ -385,5 +386,73 @@ theorem reads_of_wf (t : Tok) (h : TokWF t) : ReadsTok t := by
   | bslash => exact reads_bslash
   | bar => exact reads_bar
   | allIn => exact reads_allIn
+
+/-! ### spellings begin and end with a character that is not white space -/
+
+/-- first and last character exist and are not white space -/
+def endsOK (l : List Char) : Bool :=
+  match l.head?, l.getLast? with
+  | some c, some d => !isWsC c && !isWsC d
+  | _, _ => false
+
+theorem endsOK_exists (l : List Char) (h : endsOK l = true) :
+    ∃ c d r, l = c :: r ∧ isWsC c = false ∧ l.getLast? = some d ∧ isWsC d = false := by
+  cases l with
+  | nil => simp [endsOK] at h
+  | cons c r =>
+    cases hl : (c :: r).getLast? with
+    | none => simp [endsOK, hl] at h
+    | some d =>
+      simp [endsOK, hl] at h
+      exact ⟨c, d, r, rfl, h.1, rfl, h.2⟩
+
+theorem op_text_ends (o : BinOp) : endsOK o.text.toList = true := by cases o <;> decide
+
+theorem idChar_not_ws (c : Char) (h : idChar c = true) : isWsC c = false := by
+  cases hw : isWsC c with
+  | false => rfl
+  | true => have := isWs_not_idChar c hw; rw [h] at this; cases this
+
+theorem sp_ends (t : Tok) (h : TokWF t) :
+    ∃ c d r, sp t = c :: r ∧ isWsC c = false ∧ (sp t).getLast? = some d ∧ isWsC d = false := by
+  cases t with
+  | id s =>
+    obtain ⟨⟨c, r, hs, ha⟩, hall, _⟩ := h
+    have hl : ∃ d, s.toList.getLast? = some d := by rw [hs]; exact ⟨_, (List.getLast?_eq_some_getLast (by simp))⟩
+    obtain ⟨d, hd⟩ := hl
+    have hdm : d ∈ s.toList := List.mem_of_getLast? hd
+    have hcm : c ∈ s.toList := by rw [hs]; simp
+    simp only [List.all_eq_true] at hall
+    exact ⟨c, d, r, hs, idChar_not_ws c (hall c hcm), hd, idChar_not_ws d (hall d hdm)⟩
+  | int n =>
+    rw [sp_int]
+    cases hd : Nat.toDigits 10 n with
+    | nil => exact absurd hd Nat.toDigits_ne_nil
+    | cons c r =>
+      have hdig : ∀ x ∈ Nat.toDigits 10 n, x.isDigit = true := fun x hx => Nat.isDigit_of_mem_toDigits (by omega) (by omega) hx
+      have hl : ∃ d, (c :: r).getLast? = some d := ⟨_, (List.getLast?_eq_some_getLast (by simp))⟩
+      obtain ⟨d, hdl⟩ := hl
+      refine ⟨c, d, r, rfl, idChar_not_ws c (digit_idChar c (hdig c (by rw [hd]; simp))), hdl, ?_⟩
+      exact idChar_not_ws d (digit_idChar d (hdig d (by rw [hd]; exact List.mem_of_getLast? hdl)))
+  | real s => exact absurd h (by simp [TokWF])
+  | str b => exact ⟨'\'', '\'', b ++ ['\''], rfl, by decide, by simp only [sp]; rw [List.getLast?_append]; simp, by decide⟩
+  | estr s => exact ⟨'"', '"', s.toList ++ ['"'], rfl, by decide, by simp only [sp]; rw [List.getLast?_append]; simp, by decide⟩
+  | bin s =>
+    obtain ⟨hne, hall⟩ := h
+    cases hs : s.toList with
+    | nil => exact absurd hs hne
+    | cons c r =>
+      have hl : ∃ d, (c :: r).getLast? = some d := ⟨_, (List.getLast?_eq_some_getLast (by simp))⟩
+      obtain ⟨d, hdl⟩ := hl
+      have hdm : d ∈ s.toList := by rw [hs]; exact List.mem_of_getLast? hdl
+      simp only [List.all_eq_true, decide_eq_true_eq] at hall
+      refine ⟨'%', d, s.toList, rfl, by decide, ?_, ?_⟩
+      · simp only [sp]; rw [hs, List.getLast?_cons_cons]; exact hdl
+      · rcases hall d hdm with rfl | rfl <;> decide
+  | kw s =>
+    simp only [TokWF, List.mem_cons, List.mem_nil_iff, or_false] at h
+    rcases h with rfl | rfl | rfl | rfl | rfl | rfl | rfl | rfl <;> exact endsOK_exists _ (by decide)
+  | op o => exact endsOK_exists _ (op_text_ends o)
+  | _ => exact endsOK_exists _ (by decide)
 
 end StepModel.Express
